@@ -81,6 +81,25 @@ def point_to_triangle(point, triangle_points):
         return np.linalg.norm(point - closest_point), closest_point
 
     # Point inside face region
+    if va + vb + vc == 0.0:
+        # Degenerate triangle (collinear or coinciding points): the closest
+        # point lies on one of its edges.
+        best_distance = MAX_FLOAT
+        closest_point = triangle_points[0]
+        for i in range(3):
+            start = triangle_points[i]
+            segment = triangle_points[(i + 1) % 3] - start
+            segment_length_sq = np.dot(segment, segment)
+            t = 0.0
+            if segment_length_sq > 0.0:
+                t = min(1.0, max(0.0, np.dot(point - start, segment)
+                                 / segment_length_sq))
+            candidate = start + t * segment
+            distance = np.linalg.norm(point - candidate)
+            if distance < best_distance:
+                best_distance = distance
+                closest_point = candidate
+        return best_distance, closest_point
     denom = 1.0 / (va + vb + vc)
     v = vb * denom
     w = vc * denom
